@@ -6,11 +6,12 @@ function samlangGeneratedWebAssemblyLoader(bytes, builtinsPatch = () => ({})) {
   function gcArrayToString(arr) {
     if (!instance) throw new Error('Instance not initialized');
     const len = instance.exports.__strLen(arr);
-    const codes = [];
+    // Strings are UTF-8 byte arrays. __strGet sign-extends, Uint8Array stores the value modulo 256.
+    const utf8 = new Uint8Array(len);
     for (let i = 0; i < len; i++) {
-      codes.push(instance.exports.__strGet(arr, i));
+      utf8[i] = instance.exports.__strGet(arr, i);
     }
-    return String.fromCharCode(...codes);
+    return new TextDecoder().decode(utf8);
   }
 
   const builtins = {
